@@ -6,7 +6,7 @@
    rearrangements (Permutation (sh l) l), so every statement holds for every iteration order. *)
 From Coq Require Import Permutation.
 From Verif Require Import Lib.Bytes StateRes.Event StateRes.Kahn StateRes.V2 StateRes.V1 StateRes.Entry
-     StateRes.SortProofs StateRes.KahnProofs StateRes.OrderProofs StateRes.ResultProofs StateRes.CmpProofs.
+     StateRes.SortProofs StateRes.KahnProofs StateRes.OrderProofs StateRes.ResultProofs StateRes.CmpProofs StateRes.KahnSetProofs StateRes.OrderSetProofs.
 
 (* slices.SortStableFunc by a total order whose ties are identities: the result depends only on
    the set of elements, not on the order they were in (map iteration order, input order) *)
@@ -122,6 +122,46 @@ Proof.
   - intros a b Ha Hb E. apply ow_cmp_eq in E. eapply NoDup_map_inj; eauto.
 Qed.
 
+
+(* ---------- order independence of the orderings ---------- *)
+(* both Kahn implementations: for a duplicate-free input the output list is the same for every
+   presentation order of the items and every iteration order of the Go maps (sort key: a total
+   order whose ties are the same ID; acyclicity not needed) *)
+Theorem kahn_depends_on_set_only
+  (T : Type) (tid : T -> bytes) (trefs : T -> list bytes) (tcmp : T -> T -> comparison)
+  (sh sh' : list T -> list T) (l l' : list T) :
+  good T tcmp -> (forall a b, tcmp a b = Eq -> tid a = tid b) ->
+  (forall x, Permutation (sh x) x) -> (forall x, Permutation (sh' x) x) ->
+  NoDup (map tid l) -> Permutation l l' ->
+  kahn tid trefs tcmp sh l = kahn tid trefs tcmp sh' l'.
+Proof. intros G E S S' ND P. apply kahn_set_only; assumption. Qed.
+
+(* ReverseTopologicalOrdering / HeaderedReverseTopologicalOrdering return the same list for
+   every presentation order of the same events (repeats allowed) and every map order *)
+Theorem reverse_topological_ordering_order_independent
+  (shP shP' : list pwrap -> list pwrap) (shO shO' : list owrap -> list owrap)
+  (ver : bytes) (by_auth : bool) (input input' : list event) :
+  (forall l, Permutation (shP l) l) -> (forall l, Permutation (shP' l) l) ->
+  (forall l, Permutation (shO l) l) -> (forall l, Permutation (shO' l) l) ->
+  ids_identify input -> one_create input -> Permutation input input' ->
+  reverse_topological_ordering shP shO ver by_auth input
+  = reverse_topological_ordering shP' shO' ver by_auth input'.
+Proof. intros. apply reverse_topological_ordering_set_only; assumption. Qed.
+
+(* the two ordered stages inside the v2 resolvers, for repeat-free lists *)
+Theorem power_order_order_independent
+  (shP shP' : list pwrap -> list pwrap) (priv : bool) (cl ud : Z) (authmap : list event)
+  (create : option event) (l l' : list event) :
+  (forall x, Permutation (shP x) x) -> (forall x, Permutation (shP' x) x) ->
+  NoDup (ids_of l) -> Permutation l l' ->
+  power_order shP priv cl ud authmap create l = power_order shP' priv cl ud authmap create l'.
+Proof. intros. apply power_order_set_only; assumption. Qed.
+
+Theorem mainline_order_order_independent (authmap : list event) (resolved_power : option event) (l l' : list event) :
+  NoDup (ids_of l) -> Permutation l l' ->
+  mainline_order authmap resolved_power l = mainline_order authmap resolved_power l'.
+Proof. apply mainline_order_set_only. Qed.
+
 (* ---------- non-vacuity: a concrete chain A <- B <- C given in the order C, A, B ---------- *)
 Definition ex_ev (id : bytes) (auth : list bytes) (ts : Z) : event :=
   mkEvent id (bs "m.room.topic") (Some []) (bs "@u:h") ts 1%Z auth auth [] (bs "{}").
@@ -152,3 +192,7 @@ Print Assumptions result_at_most_one_per_key_deprecated.
 Print Assumptions agreed_keys_kept_partial.
 Print Assumptions power_sort_canonical.
 Print Assumptions mainline_sort_canonical.
+Print Assumptions kahn_depends_on_set_only.
+Print Assumptions reverse_topological_ordering_order_independent.
+Print Assumptions power_order_order_independent.
+Print Assumptions mainline_order_order_independent.
